@@ -821,7 +821,7 @@ fn replay(tier: Tier, case: &Value) -> Vec<Violation> {
 }
 
 fn run(ctx: &Ctx) -> i32 {
-    let ids = ["columns", "grid", "ranges", "addresses", "reuse", "range-history", "columns~rev", "grid~rev", "ranges~rev", "addresses~rev", "ranges~par", "addresses~par", "reuse~par"];
+    let ids = ["columns", "grid", "ranges", "addresses", "reuse", "range-history", "columns~rev", "grid~rev", "ranges~rev", "addresses~rev", "columns~par", "ranges~par", "addresses~par", "reuse~par"];
     let spaces = ids.iter().map(|id| (*id, space(ctx.tier, id).unwrap())).collect();
     let thorough = ctx.tier == Tier::Thorough;
     run_e1(
